@@ -10,6 +10,8 @@ use i_tree::key::tree::KeyExpTree;
 use std::fmt::Write as FmtWrite;
 
 pub const DEFAULT: i32 = -7;
+/// arenas above this size are reported by their size only (a snapshot would be hundreds of MB)
+pub const MAX_SNAPSHOT_SLOTS: usize = 50_000;
 
 pub trait KeyColl: KeyExpCollection<XKey, i32, i32> + Sized {
     const NAME: &'static str;
@@ -30,6 +32,10 @@ impl KeyColl for KeyExpTree<XKey, i32, i32> {
     }
     fn snap_json(&self) -> String {
         let s = self.verif_snapshot();
+        if s.nodes.len() > MAX_SNAPSHOT_SLOTS {
+            // resource cut-off, not a verdict: the size itself is logged and judged by TLC
+            return format!("\"arena\":{{\"slots\":{},\"free\":{}}}", s.nodes.len(), s.unused.len());
+        }
         let mut o = String::with_capacity(64 + 40 * s.nodes.len());
         let _ = write!(o, "\"snap\":{{\"root\":{},\"nd\":[", r32(s.root));
         for (i, n) in s.nodes.iter().enumerate() {
